@@ -150,7 +150,24 @@ fn print_mode(threads: u64, per: u64, seed: u64) {
                     let [f0, f1, f2, f3, f4] = record_fragments(tid, seq);
                     let d = mix(seed ^ (tid << 32) ^ seq);
                     let (s0, s1, s2, s3, s4) = (Slow(&f0, d), Slow(&f1, d >> 8), Slow(&f2, d >> 16), Slow(&f3, d >> 24), Slow(&f4, d >> 32));
-                    match (seq + tid) % 8 {
+                    match (seq + tid) % 12 {
+                        8 => {
+                            // the process-wide handle behind `&mut`
+                            let mut so = std::io::stdout();
+                            let mut s = anstream::AutoStream::auto(&mut so);
+                            let _ = write!(s, "{s0}{s1}{s2}{s3}{s4}\n");
+                        }
+                        9 => {
+                            // ... and behind a Box
+                            let mut s = anstream::AutoStream::auto(Box::new(std::io::stderr()));
+                            let _ = writeln!(s, "{s0}{s1}{s2}{s3}{s4}");
+                        }
+                        10 => {
+                            let mut s = anstream::stderr().lock();
+                            let _ = write!(s, "{s0}{s1}");
+                            let _ = write!(s, "{s2}{s3}{s4}\n");
+                        }
+                        11 => anstream::eprint!("{s0}{s1}{s2}{s3}{s4}\n"),
                         0 => anstream::print!("{s0}{s1}{s2}{s3}{s4}\n"),
                         1 => anstream::println!("{s0}{s1}{s2}{s3}{s4}"),
                         2 => anstream::eprintln!("{s0}{s1}{s2}{s3}{s4}"),
@@ -229,6 +246,14 @@ fn register_mode(writers: u64, readers: u64, ops: u64, seed: u64) {
                         v.write_global();
                         let t1 = tick();
                         log.push((tid, 'w', code(v), t0, t1));
+                    } else if r % 3 == 0 {
+                        // the consumer of the register: the decision for a stream that is not a terminal (colour
+                        // variables are removed from the environment by the driver) resolves the value it read
+                        let sink: Vec<u8> = Vec::new();
+                        let t0 = tick();
+                        let v = anstream::AutoStream::choice(&sink);
+                        let t1 = tick();
+                        log.push((tid, 'd', code(v), t0, t1));
                     } else {
                         let t0 = tick();
                         let v = colorchoice::ColorChoice::global();
